@@ -92,6 +92,8 @@ pub fn run(outdir: &Path, tier: &str, seed: u64, shards: usize, replay: Option<S
                 ps.push(p);
             }
         }
+        // type, enum and member names that normalization = rust spells differently
+        ps.extend(crate::c01dir::snake_case_types().into_iter().take(1));
         for (i, mut p) in crate::c04dir::directed().into_iter().enumerate() {
             if i % 7 == 0 {
                 p.opts.response_derives = Some("Serialize".into());
@@ -107,6 +109,8 @@ pub fn run(outdir: &Path, tier: &str, seed: u64, shards: usize, replay: Option<S
                 ps.push(p);
             }
         }
+        // the directed programs do not crowd out the random ones
+        let nprog = nprog.max(ps.len() + if thorough { 20 } else { 4 });
         let mut tries = 0;
         while ps.len() < nprog && tries < nprog * 6 {
             tries += 1;
